@@ -15,6 +15,7 @@ package props
 import (
 	"fmt"
 	"net/netip"
+	"os"
 	"strings"
 	"testing"
 
@@ -35,6 +36,7 @@ type c14Budget struct {
 	expires  int
 	restarts int // a router loses its keys and pending state (process restart)
 	cleans   int // ticks of the once-a-minute cleaner of the ping handlers
+	pairs    int // two messages for one router handled by two of its workers at the same time (random test only)
 	steps    int
 	prekey   bool // start from an established session
 }
@@ -208,6 +210,7 @@ func c14Run(c *core.Case, bud c14Budget, ia, ib int) {
 	initsLeft := bud.inits
 	drops, dups, expires, restarts := bud.drops, bud.dups, bud.expires, bud.restarts
 	cleans := bud.cleans
+	pairs := bud.pairs
 	expiredUnanswered := [2]bool{} // router i holds an expired hello state that was never answered
 	for step := 0; step < bud.steps; step++ {
 		type act struct {
@@ -262,11 +265,48 @@ func c14Run(c *core.Case, bud c14Budget, ia, ib int) {
 				acts = append(acts, act{"clean", i})
 			}
 		}
+		if pairs > 0 {
+			for j, fl := range w.vn.Queue {
+				for k := j + 1; k < len(w.vn.Queue); k++ {
+					if w.vn.Queue[k].To == fl.To {
+						acts = append(acts, act{"pair", j*1000 + k})
+					}
+				}
+			}
+		}
 		if len(acts) == 0 {
 			break
 		}
 		a := acts[c.Pick("act", len(acts))]
 		switch a.kind {
+		case "pair":
+			// Two messages for one router arrive together and are handled by two of
+			// its workers; one of them is held at a generated point while the other
+			// runs (see vnet.Gate).
+			pairs--
+			j, k := a.arg/1000, a.arg%1000
+			f2 := w.vn.Drop(k)
+			f1 := w.vn.Drop(j)
+			to := f1.To
+			if at := core.OneOf(c, "pair.point", "", "instance.Identity", "instance.State", "instance.Config", "storage.GetRouter"); at == "" {
+				to.Gate.Arm(c.Int("pair.any-call", 0, 12))
+			} else {
+				to.Gate.ArmAt(at, c.Int("pair.call", 0, 4))
+			}
+			res, held, ok := w.vn.InjectPar(to, []*vnet.VLink{f1.Link, f2.Link}, [][]byte{f1.Data, f2.Data})
+			w.delivered += 2
+			w.log("deliver together %s and %s (held at %q): router=%v", w.describe(f1), w.describe(f2), to.Gate.Point, res.RouterErrs)
+			if res.Panicked {
+				c.Fatalf("worker panic while handling two messages at once: %v", w.vn.Panics)
+			}
+			if !ok {
+				c.Class("inconclusive-workers-did-not-finish")
+				return
+			}
+			if held {
+				c.Class("two-messages-at-once/held")
+			}
+			c.Class("two-messages-at-once")
 		case "init":
 			initsLeft[a.arg]--
 			w.packet(a.arg)
@@ -379,6 +419,13 @@ func TestC14Random(t *testing.T) {
 		}
 		if bud.inits[0]+bud.inits[1] == 0 {
 			bud.inits[0] = 1
+		}
+		if os.Getenv("VERIF_C14_PAIRS") != "" {
+			// Not part of the registered check: C14 quantifies over delivery orders,
+			// i.e. one message after the other. With this switch two messages for one
+			// router may be handled by two of its workers at once (DESIGN.md 10.3,
+			// observation "two hello requests of one router handled at once").
+			bud.pairs = c.Int("pairs", 0, 2)
 		}
 		ia := c.Pick("idA", 20)
 		ib := c.Pick("idB", 19)
